@@ -514,10 +514,21 @@ theorem find_fnc {P} (cfg : Cfg) (d : Ds P) :
 /-- the exported `face_node_connectivity` carries `start_index = 0`, stripped or not -/
 theorem startOf_fnc : startOf fncVar = some 0 ∧ startOf fncVar.strip = some 0 := by decide
 
-/-- **ugrid_rt.**  Whatever else is in the grid's dataset, the reader accepts the export and finds
-    the same face-node table and the same node coordinates, in the same order. -/
+/-- the grid's `start_index` attribute describes the table the grid holds: reading the table under
+    it changes nothing.  True of every grid built in memory (`start_index = 0`: `gridConsistent_zero`)
+    and of every grid the reader makes from ANY source (`standardized_attrs_consistent`). -/
+def GridConsistent {P} (d : Ds P) : Prop := standardize d.fnStart d.table = d.table
+
+instance {P} (d : Ds P) : Decidable (GridConsistent d) := by unfold GridConsistent; infer_instance
+
+theorem gridConsistent_zero {P} (d : Ds P) (h : d.fnStart = some 0) : GridConsistent d := by
+  unfold GridConsistent; rw [h]; exact standardize_zero _
+
+/-- **ugrid_rt.**  Whatever else is in the grid's dataset, and whatever `start_index` attribute its
+    table carries consistently, the reader accepts the export and finds the same face-node table
+    and the same node coordinates, in the same order. -/
 theorem ugrid_rt {P} (cfg : Cfg) (tmpl : Topo) (d : Ds P) (ht : TemplateOK tmpl)
-    (hc : HasCoords cfg d.vars) (hp : PairsOK d.vars) :
+    (hc : HasCoords cfg d.vars) (hp : PairsOK d.vars) (hcons : GridConsistent d) :
     decodeUgrid (encodeUgrid cfg tmpl d).1 = some (d.table, d.nodes) := by
   have hr : ReaderOK (topoOf tmpl d.vars) (exportVars cfg d.vars) :=
     readerOK_topoOf (readerOK_mono ht.reader (core_sub_export cfg d hc).1)
@@ -542,9 +553,11 @@ theorem ugrid_rt {P} (cfg : Cfg) (tmpl : Topo) (d : Ds P) (ht : TemplateOK tmpl)
       have : ((fun v : Var => v.name == "face_node_connectivity") ∘ Var.strip)
           = (fun v => v.name == "face_node_connectivity") := by funext v; rfl
       rw [this, find_fnc]; rfl
-    simp [hf, startOf_fnc.2, standardize_zero]
+    unfold GridConsistent at hcons
+    simp [hf, hcons]
   · rw [hnames _ rfl]
-    simp [find_fnc, startOf_fnc.1, standardize_zero]
+    unfold GridConsistent at hcons
+    simp [find_fnc, hcons]
 
 /-- **serialisable** (repair `C07-ugrid-export-attrs`): with attribute stripping, the export can
     be written whatever attributes of whatever kind the grid's variables carry -/
@@ -639,9 +652,10 @@ theorem run_grids {P X} (cfg : Cfg) (env : Env P X) (g : Nat) (ops : List Op) :
 
 /-- the operations never touch the defining payload of a grid -/
 theorem evolve_core {P} (g : Nat) (ops : List Op) :
-    ∀ d : Ds P, (evolve g d ops).table = d.table ∧ (evolve g d ops).nodes = d.nodes := by
+    ∀ d : Ds P, (evolve g d ops).table = d.table ∧ (evolve g d ops).nodes = d.nodes ∧
+      (evolve g d ops).fnStart = d.fnStart := by
   induction ops with
-  | nil => intro d; exact ⟨rfl, rfl⟩
+  | nil => intro d; exact ⟨rfl, rfl, rfl⟩
   | cons op ops ih =>
     intro d
     simp only [evolve]
@@ -714,7 +728,7 @@ theorem exodus_scrip_ignore_extras {P X} (cfg : Cfg) (hx : cfg.exoDeg2rad = true
 theorem derived_then_encode {P X} (cfg : Cfg) (hs : cfg.stripAttrs = true) (hx : cfg.exoDeg2rad = true)
     (env : Env P X) (henv : ∀ p, env.toXyz p = env.radToXyz (env.deg2rad p))
     (tmpl : Topo) (ht : TemplateOK tmpl) (d : Ds P) (extra : List Var)
-    (hc : HasCoords cfg (d.add extra).vars) (hp : PairsOK (d.add extra).vars) :
+    (hc : HasCoords cfg (d.add extra).vars) (hp : PairsOK (d.add extra).vars) (hcons : GridConsistent d) :
     let o := (encodeUgrid cfg tmpl (d.add extra)).1
     o.serialisable = true ∧ o.Closed ∧ decodeUgrid o = some (d.table, d.nodes) ∧
     varNames o.vars = varNames (exportVars cfg (d.add extra).vars) ∧
@@ -724,7 +738,7 @@ theorem derived_then_encode {P X} (cfg : Cfg) (hs : cfg.stripAttrs = true) (hx :
   intro o
   have hex := exodus_scrip_ignore_extras cfg hx env henv tmpl d extra
   exact ⟨ugrid_serialisable cfg hs tmpl _, topology_closed cfg tmpl _ ht.closed hc hp,
-    ugrid_rt cfg tmpl (d.add extra) ht hc hp, ugrid_export_names cfg tmpl _, hex.1, hex.2⟩
+    ugrid_rt cfg tmpl (d.add extra) ht hc hp hcons, ugrid_export_names cfg tmpl _, hex.1, hex.2⟩
 
 /-- non-vacuity: bounds (object-valued attributes) and edges (boolean array) before encoding -/
 example : PairsOK (({ table := [[0, 1, 2]], nodes := [0, 1, 2], lonlat := true, extras := [] } : Ds Nat).add
@@ -736,14 +750,17 @@ example : PairsOK (({ table := [[0, 1, 2]], nodes := [0, 1, 2], lonlat := true, 
 theorem history_ugrid_rt {P X} (cfg : Cfg) (hc : cfg.copyTemplate = true) (hs : cfg.stripAttrs = true)
     (env : Env P X) (w : World P) (ht : TemplateOK w.tmpl) (ops : List Op) (g : Nat) (d : Ds P)
     (hd : w.grids[g]? = some d) (hco : HasCoords cfg (evolve g d ops).vars)
-    (hp : PairsOK (evolve g d ops).vars) :
+    (hp : PairsOK (evolve g d ops).vars) (hcons : GridConsistent d) :
     ∃ o, (step cfg env (run cfg env w ops).1 (.encode g .ugrid)).2 = Out.ugrid o ∧
       o.serialisable = true ∧ o.Closed ∧ decodeUgrid o = some (d.table, d.nodes) := by
   refine ⟨(encodeUgrid cfg w.tmpl (evolve g d ops)).1, ?_, ?_, ?_, ?_⟩
   · rw [encode_history_free cfg hc env w ops g .ugrid d hd]; rfl
   · exact ugrid_serialisable cfg hs _ _
   · exact topology_closed cfg _ _ ht.closed hco hp
-  · rw [ugrid_rt cfg _ (evolve g d ops) ht hco hp, (evolve_core g ops d).1, (evolve_core g ops d).2]
+  · have hc' : GridConsistent (evolve g d ops) := by
+      unfold GridConsistent at hcons ⊢
+      rw [(evolve_core g ops d).1, (evolve_core g ops d).2.2]; exact hcons
+    rw [ugrid_rt cfg _ (evolve g d ops) ht hco hp hc', (evolve_core g ops d).1, (evolve_core g ops d).2.1]
 
 /-! ### the code as it stands (`Cfg.asis`) -/
 
@@ -1298,10 +1315,10 @@ theorem exodus_meets_spec {P X} (cfg : Cfg) (h1 : cfg.exoFillTest = true) (h2 : 
 
 /-- the UGRID round trip meets it (same table, same order) -/
 theorem ugrid_meets_spec {P} (cfg : Cfg) (tmpl : Topo) (d : Ds P) (ht : TemplateOK tmpl)
-    (hc : HasCoords cfg d.vars) (hp : PairsOK d.vars) :
+    (hc : HasCoords cfg d.vars) (hp : PairsOK d.vars) (hcons : GridConsistent d) :
     ∃ t nodes, decodeUgrid (encodeUgrid cfg tmpl d).1 = some (t, nodes) ∧ nodes = d.nodes ∧
       RoundTripOK .ugrid (d.table.map faceOf) (t.map faceOf) = true :=
-  ⟨d.table, d.nodes, ugrid_rt cfg tmpl d ht hc hp, rfl, sameFacesOrdered_refl _⟩
+  ⟨d.table, d.nodes, ugrid_rt cfg tmpl d ht hc hp hcons, rfl, sameFacesOrdered_refl _⟩
 
 /-- the specification is not trivially true: a reversed face, a missing face, a face in the wrong
     place (ordered formats) are rejected; a rotated start corner and, for Exodus, another face
@@ -1388,20 +1405,14 @@ theorem export_is_c01_dialect (w : Nat) (m : Mesh) :
 
 /-- **ugrid_rt through C01's decoder**: the reader model that C01 ties to the code, applied to
     the exported `face_node_connectivity` variable (with the `start_index` attribute it really
-    carries), returns the grid's table — whatever else is in the dataset. -/
-theorem ugrid_rt_via_c01 {P} (cfg : Cfg) (tmpl : Topo) (d : Ds P) :
-    ∃ v, (encodeUgrid cfg tmpl d).1.vars.find? (fun v => v.name == "face_node_connectivity") = some v ∧
-      Readers.decodeUgrid (c01Source (startOf v) (encodeUgrid cfg tmpl d).1.table) = .ok d.table := by
-  unfold encodeUgrid
-  simp only
-  split
-  · refine ⟨fncVar.strip, ?_, ?_⟩
-    · rw [List.find?_map]
-      have : ((fun v : Var => v.name == "face_node_connectivity") ∘ Var.strip)
-          = (fun v => v.name == "face_node_connectivity") := by funext v; rfl
-      rw [this, find_fnc]; rfl
-    · rw [ugrid_readers_agree, startOf_fnc.2, standardize_zero]
-  · exact ⟨fncVar, find_fnc cfg d, by rw [ugrid_readers_agree, startOf_fnc.1, standardize_zero]⟩
+    carries: the grid's, copied), returns the grid's table — whatever else is in the dataset. -/
+theorem ugrid_rt_via_c01 {P} (cfg : Cfg) (tmpl : Topo) (d : Ds P) (hcons : GridConsistent d) :
+    Readers.decodeUgrid (c01Source (encodeUgrid cfg tmpl d).1.fnStart (encodeUgrid cfg tmpl d).1.table)
+      = .ok d.table := by
+  rw [ugrid_readers_agree]
+  unfold GridConsistent at hcons
+  simp only [encodeUgrid]
+  rw [hcons]
 
 /-- padding a row with `FILL` does not change the face it stores -/
 theorem faceOf_append_replicate_fill (a : List Int) (k : Nat) :
@@ -1738,5 +1749,121 @@ theorem asis_stale_encoding_not_writable :
 /-- non-vacuity of `export_writable`'s hypothesis -/
 example : OnlyFillClashes ((exportVars Cfg.repaired exFileSourced.vars).map Var.strip) exFileSourced.encoding := by
   decide
+
+/-! ## 11. grids made by the reader: the attributes describe the stored values -/
+
+theorem minNonFill_eq (t : Table) : minNonFill t = Readers.minList (Readers.nonFill t) := by
+  unfold minNonFill Readers.nonFill; rw [minList_eq_min?]
+
+theorem shiftTable_eq (a : Int) (t : Table) : shiftTable a t = Readers.shift a t := rfl
+
+/-- after subtracting the smallest real entry, the smallest real entry is `0` (or there is none) -/
+theorem minNonFill_after_shift (t : Table) :
+    (minNonFill (shiftTable ((minNonFill t).getD 0) t)).getD 0 = 0 := by
+  unfold minNonFill
+  cases hm : (t.flatten.filter (· != FILL)).min? with
+  | none =>
+    have hnil : t.flatten.filter (· != FILL) = [] := by simpa using hm
+    have hall : ∀ r ∈ t, ∀ x ∈ r, x = FILL := by
+      intro r hr x hx
+      have := List.filter_eq_nil_iff.mp hnil x (List.mem_flatten.mpr ⟨r, hr, hx⟩)
+      simpa using this
+    have : (shiftTable 0 t).flatten.filter (· != FILL) = [] := by
+      rw [List.filter_eq_nil_iff]
+      intro x hx
+      obtain ⟨r', hr', hx'⟩ := List.mem_flatten.mp hx
+      obtain ⟨r, hr, rfl⟩ := List.mem_map.mp hr'
+      obtain ⟨y, hy, rfl⟩ := List.mem_map.mp hx'
+      simp [hall r hr y hy]
+    simp [this]
+  | some a =>
+    obtain ⟨hmem, hle⟩ := List.min?_eq_some_iff.mp hm
+    simp only [Option.getD_some]
+    have hmem' := List.mem_filter.mp hmem
+    have key : ((shiftTable a t).flatten.filter (· != FILL)).min? = some 0 := by
+      rw [List.min?_eq_some_iff]
+      constructor
+      · obtain ⟨r, hr, hx⟩ := List.mem_flatten.mp hmem'.1
+        have ha : a ≠ FILL := by simpa using hmem'.2
+        refine List.mem_filter.mpr ⟨List.mem_flatten.mpr ⟨r.map (fun x => if x = FILL then FILL else x - a), ?_, ?_⟩, by decide⟩
+        · exact List.mem_map.mpr ⟨r, hr, rfl⟩
+        · exact List.mem_map.mpr ⟨a, hx, by simp [ha]⟩
+      · intro b hb
+        obtain ⟨hb1, hb2⟩ := List.mem_filter.mp hb
+        obtain ⟨r', hr', hx'⟩ := List.mem_flatten.mp hb1
+        obtain ⟨r, hr, rfl⟩ := List.mem_map.mp hr'
+        obtain ⟨y, hy, rfl⟩ := List.mem_map.mp hx'
+        by_cases hyf : y = FILL
+        · simp [hyf] at hb2
+        · have := hle y (List.mem_filter.mpr ⟨List.mem_flatten.mpr ⟨r, hr, hy⟩, by simpa using hyf⟩)
+          simp only [hyf, if_false]; omega
+    rw [key]; rfl
+
+/-- **standardized_attrs_consistent.**  For EVERY UGRID source variable — every dialect: any base,
+    `start_index` declared or not, any fill declaration, any storage type, any entries — what the
+    tree's `_standardize_connectivity` leaves on the grid is consistent: `_FillValue` is the fill in the
+    table and reading the table under its own `start_index` attribute changes nothing.  (With a
+    declared start index the attribute is reset to `0`; with none, the table was re-based to its
+    smallest entry, which is therefore `0`.) -/
+theorem standardized_attrs_consistent (s : Readers.USource) (v : StdVar)
+    (h : standardizeVar .reset s = .ok v) : v.consistent := by
+  unfold standardizeVar at h
+  cases hd : Readers.decodeUgrid s with
+  | error e => rw [hd] at h; cases h
+  | ok t =>
+    rw [hd] at h
+    cases h
+    refine ⟨rfl, ?_⟩
+    cases hs : s.startAttr with
+    | some a => simp only; exact standardize_zero t
+    | none =>
+      simp only
+      -- the table is the source's table shifted by its smallest real entry
+      unfold Readers.decodeUgrid at hd
+      simp only at hd
+      by_cases hb : Readers.hasBad (Readers.origFill s) s.cells = true
+      · rw [if_pos hb] at hd; cases hd
+      · rw [if_neg hb] at hd
+        simp only [hs, Readers.startOf, Except.ok.injEq] at hd
+        subst hd
+        rw [← shiftTable_eq, ← minNonFill_eq]
+        unfold standardize
+        simp only
+        rw [minNonFill_after_shift]
+        exact standardize_zero _
+
+/-- **re-export of a reader-made grid, any source dialect**: the table C01's reader model makes from
+    ANY source, exported with the attributes the tree's reader leaves, is read back unchanged by the
+    same reader model. -/
+theorem ugrid_rt_any_source (s : Readers.USource) (v : StdVar) (h : standardizeVar .reset s = .ok v) :
+    Readers.decodeUgrid (c01Source v.startAttr v.table) = .ok v.table := by
+  rw [ugrid_readers_agree, (standardized_attrs_consistent s v h).2]
+
+/-- … and through the whole exporter: a grid whose table and `start_index` attribute are what the
+    reader made of any source is `GridConsistent`, so `ugrid_rt` / `history_ugrid_rt` apply to it -/
+theorem gridConsistent_of_reader {P} (s : Readers.USource) (v : StdVar) (h : standardizeVar .reset s = .ok v)
+    (d : Ds P) (ht : d.table = v.table) (hst : d.fnStart = v.startAttr) : GridConsistent d := by
+  unfold GridConsistent; rw [ht, hst]; exact (standardized_attrs_consistent s v h).2
+
+/-- a one-based source declaring `start_index = 1` (FESOM / Fortran style), node 0 a corner -/
+def exOneBased : Readers.USource :=
+  Readers.encodeUgrid { base := 1, declared := true, fill := .int (-1), store := .i32 } 4 [[0, 1, 2], [0, 2, 3, 4]]
+
+/-- non-vacuity + **as-is counterexample for `setdefault`** (seeded change C07f): the tree's reader
+    leaves `start_index = 0` on the zero-based table; with `attrs.setdefault("start_index", 0)` the
+    declared `1` survives on zero-based values, the variable is inconsistent, and the export
+    re-read is shifted once more (node 0 becomes −1) -/
+theorem asis_setdefault_inconsistent :
+    (standardizeVar .reset exOneBased).toOption
+      = some ⟨[[0, 1, 2, FILL], [0, 2, 3, 4]], some 0, some FILL⟩ ∧
+    (standardizeVar .setdefault exOneBased).toOption
+      = some ⟨[[0, 1, 2, FILL], [0, 2, 3, 4]], some 1, some FILL⟩ ∧
+    ¬ (StdVar.mk [[0, 1, 2, FILL], [0, 2, 3, 4]] (some 1) (some FILL)).consistent ∧
+    (Readers.decodeUgrid (c01Source (some 1) [[0, 1, 2, FILL], [0, 2, 3, 4]])).toOption
+      = some [[-1, 0, 1, FILL], [-1, 1, 2, 3]] := by decide
+
+/-- non-vacuity of the undeclared branch: a source without `start_index` whose lowest index is 5 -/
+example : (standardizeVar .reset ⟨[[.val 5, .val 6, .val 7]], none, none, .i64⟩).toOption
+    = some ⟨[[0, 1, 2]], none, some FILL⟩ := by decide
 
 end UxVerif.C07
